@@ -41,6 +41,21 @@ def mutate(rng, b):
             t = rng.choice(TOKENS); i = rng.randrange(len(b) + 1); b[i:i] = t
     return bytes(b)
 
+def far_right_errors(rng, n):
+    """invalid texts whose offending token sits beyond column 80 of a long line (renderings must cope)"""
+    out = []
+    for _ in range(n):
+        pad = " " * rng.choice([60, 70, 77, 90, 150, 400])
+        k = rng.randrange(6)
+        if k == 0: t = "2020-01-01 (8h!)" + pad + "Home office\n"
+        elif k == 1: t = "2020-01-01\n    8:00" + pad + "9:00 Work\n"
+        elif k == 2: t = "2020-01-01\n    8:00 -" + pad + "x9:00\n"
+        elif k == 3: t = "2020-01-01\n    1h\n    8:00 - ?\n    " + "9:00 -" + pad + "?? again\n"
+        elif k == 4: t = "2020-01-01" + pad + "(8h" + pad + "\n"
+        else: t = "2020-01-01\n    1h " + "x" * 300 + "\n   " + "y" * 200 + " 1h\n"
+        out.append(t.encode())
+    return out
+
 def byte_stream(tier, rng, n_mut, n_rand, k):
     out = list(token_strings(k))
     for d in docs(rng, n_mut // 2, max_records=3, max_entries=4):
@@ -54,6 +69,7 @@ def byte_stream(tier, rng, n_mut, n_rand, k):
     for _ in range(n_rand):
         n = rng.choice([1, 2, 3, 5, 8, 13, 40, 200])
         out.append(bytes(rng.choice([10, 32, 9, 13, 45, 48, 49, 58, 104, 109, 63, 40, 33, 41, rng.randrange(256)]) for _ in range(n)))
+    out += far_right_errors(rng, 30)
     long_line = b"2020-01-01\n    1h " + b"x" * 200000 + b"\n"
     out += [long_line, b"\n" * 50000, b"2020-01-01\n" + b"    1h\n" * 5000]
     return out
